@@ -9,6 +9,14 @@ t0 = time.time()
 r = subprocess.run([os.path.join(V, "bin", "kpverify"), "-repo", repo, "-property", prop, "-tier", "thorough"], text=True, capture_output=True, env=dict(os.environ, VERIF_DIR=V))
 sys.stdout.write(r.stdout); sys.stderr.write(r.stderr)
 verdict = r.returncode
+if verdict not in (0, 1):
+    # the analyzer died before reaching a verdict: the property was not decided
+    os.makedirs(os.path.join(V, "replay", prop), exist_ok=True)
+    cp = os.path.join(V, "replay", prop, "analyzer_crash.txt")
+    open(cp, "w").write("analyzer exited with status %d on %s\n%s" % (verdict, repo, r.stderr[-4000:]))
+    print("UNDECIDED: the analyzer exited with status %d before reaching a verdict" % verdict)
+    print("VIOLATION property=%s replay=%s" % (prop, cp))
+    verdict = 1
 # two-way test of the checker (does not change the verdict on /repo)
 ms = [m for m in mutate.load_mutants() if m["property"] == prop]
 with cf.ThreadPoolExecutor(max_workers=8) as ex:
